@@ -7,6 +7,7 @@ import (
 	"fmt"
 	"go/token"
 	"go/types"
+	"regexp"
 	"strings"
 
 	"golang.org/x/tools/go/ssa"
@@ -88,7 +89,7 @@ func (ex *Exec) callFunction(fr *Frame, st *State, reach string, callee *ssa.Fun
 		}
 		panic(unsupported("no assumed contract for " + callee.String()))
 	}
-	if ctr := ex.eng.specs.contractFor(key); ctr != nil && (ctr.Assume || !ex.forceInline(key)) {
+	if ctr := ex.eng.specs.contractFor(key); ctr != nil && ctr.isModular() && (ctr.Assume || !ex.forceInline(key)) {
 		ex.modularFns[key] = true
 		return ex.modularCall(fr, st, reach, callee, ctr, args, sig, pos)
 	}
@@ -223,7 +224,10 @@ func (ex *Exec) allocOblige(fr *Frame, st *State, reach string, pos token.Pos, s
 	if ex.eng.allocBound == "" {
 		return
 	}
-	ex.oblige(fr, "alloc", nil, pos, "allocation size bounded by "+ex.eng.allocBound, reach, mkCmp("<=", size, ex.allocLimit()))
+	if ex.lengthDerived(size) {
+		return // proportional to the size of the input, not to a number read from it
+	}
+	ex.oblige(fr, "alloc", nil, pos, "allocation size is not a number read from the input (bounded by 65536 elements)", reach, mkCmp("<=", size, "65536"))
 }
 
 // elemArr returns the array term holding leaf k of the backing array of a slice.
@@ -296,6 +300,7 @@ func (ex *Exec) newRefNoStore(st *State, hint string) string {
 	r := ex.sc.fresh("ref_"+hint, sInt)
 	a := ex.comp(st, compAlloc, sArr(sInt, sBool))
 	ex.sc.assert(mkAnd(mkCmp(">", r, "0"), mkNot(mkSelect(a, r))))
+	ex.freshRefs[r] = true
 	return r
 }
 
@@ -357,4 +362,39 @@ func (ex *Exec) checkFrameRefCond(fr *Frame, st *State, reach, cond, ref, what s
 		ok = mkOr(ok, mkEq(ref, m))
 	}
 	ex.oblige(fr, "frame", top.ctr.FrameTags, pos, "write ("+what+") only to objects allocated in this call or listed in modifies", mkAnd(reach, cond), ok)
+}
+
+var lenSymRe = regexp.MustCompile(`^v\d+_(ldlen|ldcap|alen|acap|len|cap|off|ncopy|mlen|p_.*_(len|cap)|.*_len|.*_cap)$`)
+
+// lengthDerived: the term is built from lengths / capacities of existing
+// values and constants only.
+func (ex *Exec) lengthDerived(term string) bool {
+	t := term
+	for iter := 0; iter < 30; iter++ {
+		changed := false
+		t = symRe.ReplaceAllStringFunc(t, func(name string) string {
+			if lenSymRe.MatchString(name) {
+				return name
+			}
+			if def, ok := ex.sc.defOf[name]; ok {
+				changed = true
+				return def
+			}
+			return name
+		})
+		if !changed {
+			break
+		}
+	}
+	for _, name := range symRe.FindAllString(t, -1) {
+		if !lenSymRe.MatchString(name) {
+			return false
+		}
+	}
+	return !strings.Contains(t, "select")
+}
+
+// isModular: a contract that only carries loop annotations does not replace the body.
+func (c *Contract) isModular() bool {
+	return c.Assume || c.HasModifies || c.Pure || len(c.Requires)+len(c.Ensures) > 0
 }
